@@ -52,8 +52,8 @@ func SetRuntimeSalt(salt uint64) {
 
 type nopRecorder struct{}
 
-func (nopRecorder) Event(runtime.Object, string, string, string)                    {}
-func (nopRecorder) Eventf(runtime.Object, string, string, string, ...interface{})   {}
+func (nopRecorder) Event(runtime.Object, string, string, string)                  {}
+func (nopRecorder) Eventf(runtime.Object, string, string, string, ...interface{}) {}
 func (nopRecorder) AnnotatedEventf(runtime.Object, map[string]string, string, string, string, ...interface{}) {
 }
 
